@@ -763,6 +763,7 @@ func (a *dynamicArray) deleteIdx(idx valueInt, throw bool) bool {
 type dynArrayPropIter struct {
 	a          DynamicArray
 	idx, limit int
+	lengthDone bool
 }
 
 func (i *dynArrayPropIter) next() (propIterItem, iterNextFunc) {
@@ -770,6 +771,10 @@ func (i *dynArrayPropIter) next() (propIterItem, iterNextFunc) {
 		name := strconv.Itoa(i.idx)
 		i.idx++
 		return propIterItem{name: asciiString(name), enumerable: _ENUM_TRUE}, i.next
+	}
+	if !i.lengthDone {
+		i.lengthDone = true
+		return propIterItem{name: asciiString("length"), enumerable: _ENUM_FALSE}, i.next
 	}
 
 	return propIterItem{}, nil
